@@ -82,13 +82,15 @@ Proof.
     + (* dense *)
       rewrite map_flat_map. apply flat_map_ext_in. intros i Hi. apply In_zrange in Hi.
       rewrite walk_prefix, map_map.
-      replace (Z.of_nat p * d + i) with (Z.of_nat (p * Z.to_nat d + Z.to_nat i)) by lia.
-      rewrite <- (IH _ _ _ Hd' E').
-      * rewrite dense_child_nth by lia. replace (Z.of_nat (Z.to_nat i)) with i by lia.
-        rewrite <- (IH _ _ _ Hd' E' (p * Z.to_nat d + Z.to_nat i)%nat).
-        -- rewrite map_map. apply map_ext. intros [c q]. reflexivity.
-        -- rewrite (flat_map_length_uniform _ _ (Z.to_nat d)) by (intros; now rewrite map_length, zrange_length). nia.
-      * rewrite (flat_map_length_uniform _ _ (Z.to_nat d)) by (intros; now rewrite map_length, zrange_length). nia.
+      set (q := (p * Z.to_nat d + Z.to_nat i)%nat).
+      replace (Z.of_nat p * d + i) with (Z.of_nat q) by (unfold q; lia).
+      assert (q < length (flat_map (fun nd => map (fun i => select i nd) (zrange d)) nodes))%nat as Hq.
+      { rewrite (flat_map_length_uniform _ _ (Z.to_nat d)) by (intros; now rewrite map_length, zrange_length).
+        unfold q. nia. }
+      pose proof (IH _ _ _ Hd' E' q Hq) as IHq. unfold q in IHq at 2.
+      rewrite dense_child_nth in IHq by lia.
+      replace (Z.of_nat (Z.to_nat i)) with i in IHq by lia.
+      rewrite <- IHq, map_map. apply map_ext. intros [c q0]. reflexivity.
     + (* compressed *)
       rewrite nthZ_of_nat. replace (Z.of_nat p + 1) with (Z.of_nat (S p)) by lia. rewrite nthZ_of_nat.
       assert (length (map keys nodes) = length nodes) as Lk by apply map_length.
@@ -107,12 +109,12 @@ Proof.
       destruct (compressed_child_nth nodes p j' Hp ltac:(fold kp; lia)) as [C1 C2].
       cbv zeta in C1, C2. fold off kp in C1, C2. rewrite C1.
       rewrite walk_prefix, map_map.
-      rewrite <- C2.
-      rewrite <- (IH _ _ _ Hd' E' (off + j')%nat).
-      * rewrite map_map. apply map_ext. intros [c q]. reflexivity.
-      * rewrite compressed_children_length.
+      assert (off + j' < length (flat_map (fun nd => map (fun k => select k nd) (keys nd)) nodes))%nat as Hq.
+      { rewrite compressed_children_length.
         rewrite (concat_split (map keys nodes) p) by lia. fold off. rewrite Nk. fold kp.
-        rewrite !app_length. lia.
+        rewrite !app_length. lia. }
+      pose proof (IH _ _ _ Hd' E' (off + j')%nat Hq) as IHq. rewrite C2 in IHq.
+      rewrite <- IHq, map_map. apply map_ext. intros [c q0]. reflexivity.
 Qed.
 
 (** * what the trie reading contains *)
